@@ -12,8 +12,9 @@ EXPLANATION = (
     "call of set is classified by new state and by the provenance/gating of its id (gate on get(id)==Unknown / ==Want, payload of pop_ready / pop_queued, "
     "buildid of Runner::wait) and the induced (pre,new) relation must lie inside Unknown->{Want,Ready}, Want->Ready, Ready->{Done,Queued}, Queued->Running, "
     "Running->{Done,Failed}, which is rank-monotone so no state is entered twice; (start) Runner::start only receives the pop_queued payload after "
-    "set(id,Running) on the same id; (queues) single writers of the ready queue, pool queues, state vector; (ready-want / ready-recheck) a step is granted "
-    "Ready only if every *ordering* input's producer is Done, with no early loop exit; (accessors) ordering_ins = ids[0..explicit+implicit+order_only], "
+    "set(id,Running) on the same id; (queues) single writers of the ready queue, pool queues, state vector; (ready-want / ready-recheck) decision tables over all paths "
+    "and loop iterations (constant propagation with ghost state): want_build hands set() Ready iff every *ordering* input's want_file answered true, want_file answers "
+    "true iff no producer or want_build returned Done, recheck_ready answers true iff no examined producer state differs from Done (7 states); no early loop exit; (accessors) ordering_ins = ids[0..explicit+implicit+order_only], "
     "validation_ins the rest, discovered deps separate; (success-only) only the Success arm of the completion switch reaches record_finished / "
     "ready_dependents; (dependents) File.dependents is appended for every input of every added build; at-most-once promotion through a de-duplicating set. "
     "Decides these clauses, not schedule correctness as a whole."
